@@ -909,7 +909,7 @@ func (p *c07prop) gen(r *rand.Rand, kind string, idx int64) C07Case {
 	}
 }
 
-var c07owned = owned("refused-valid", "flush-incomplete", "writer-prefix", "valid-offset-rejected", "spin", "panic", "append-wrong", "count-k-l")
+var c07owned = owned("refused-valid", "flush-incomplete", "writer-prefix", "valid-offset-rejected", "spin", "panic", "append-wrong", "count-k-l", "stale-writer-error", "wrong-error")
 
 func (p *c07prop) Run(c *core.Case, st *core.Stats) []core.Violation {
 	cc, err := decode[C07Case](c)
@@ -938,7 +938,7 @@ func (p *c07prop) Run(c *core.Case, st *core.Stats) []core.Violation {
 		return nil
 	}
 	var blocks []lz.Block
-	wp := lz.Wrap(&chunkReader{data: cc.Stream, chunk: cc.Chunk}, ps.P)
+	wp := lz.Wrap(&chunkReader{data: cc.Stream, chunk: cc.Chunk, eofWithData: c.Idx%3 == 0}, ps.P)
 	var perr any
 	perr = call(func() {
 		for i := 0; ; i++ {
@@ -987,8 +987,12 @@ func (p *c07prop) Run(c *core.Case, st *core.Stats) []core.Violation {
 		}
 	}
 	if !bytes.Equal(dec, cc.Stream) {
-		st.Inc("parser_side_failed")
-		return nil
+		// the blocks are a well-formed stream but not one of the input: the
+		// decoder will reproduce what the blocks say, and the pipeline parser
+		// -> Decoder then does not produce the original bytes, which is what
+		// C07 promises for everything the parsers emit (reported below as
+		// output-differs)
+		st.Inc("parser_streams_that_expand_to_other_bytes")
 	}
 	st.Inc("parser_streams")
 	st.Add("parser_blocks", int64(len(blocks)))
@@ -1078,6 +1082,34 @@ func (p *c07prop) Run(c *core.Case, st *core.Stats) []core.Violation {
 		st.Inc("pairings_decoded_exactly")
 	}
 	_ = known
+	// the same stream through a Decoder whose writer fails or writes short at
+	// a few calls, the caller resuming as k and l indicate: still accepted and
+	// reproduced exactly
+	if len(viols) == 0 && len(blocks) > 0 && len(cc.Stream) <= 100000 {
+		fr := core.Rand(c.Seed, "C07", "writer-faults", c.Idx)
+		for _, B := range []int{0, W + 1 + fr.Intn(2*W+2)} {
+			dc := &DCase{WS: W, BS: B, SUT: "decoder", Fault: map[int]WStep{}, Rich: fr.Intn(3) == 0}
+			for _, blk := range blocks {
+				op := DOp{K: "block", Data: blk.Literals}
+				for _, q := range blk.Sequences {
+					op.Seqs = append(op.Seqs, DSeq{L: q.LitLen, M: q.MatchLen, OK: 0, O: q.Offset})
+				}
+				dc.Ops = append(dc.Ops, op)
+				if fr.Intn(8) == 0 {
+					dc.Ops = append(dc.Ops, DOp{K: "flush"})
+				}
+			}
+			dc.Ops = append(dc.Ops, DOp{K: "flush"})
+			for i, nf := 0, 1+fr.Intn(4); i < nf; i++ {
+				dc.Fault[fr.Intn(3+2*len(blocks))] = genWStep(fr)
+			}
+			if f := RunDecoderHistory(dc, st, c07owned); f != nil {
+				viols = append(viols, core.V(c, f.Class, "%s cfg=%+v: Decoder{W=%d,B=%d} with writer faults %v, block %d (%s): %s", cc.Cfg.Type, cc.Cfg, W, B, dc.Fault, f.At, opName(dc, f.At), f.Msg))
+				break
+			}
+			st.Inc("pairings_with_writer_faults")
+		}
+	}
 	if len(blocks) > 0 {
 		st.NonTrivial(c)
 		st.Sample(c, 1)
@@ -1097,6 +1129,8 @@ func (p *c07prop) Run(c *core.Case, st *core.Stats) []core.Violation {
 type chunkReader struct {
 	data  []byte
 	chunk int
+	// eofWithData: the read that returns the last bytes also returns io.EOF
+	eofWithData bool
 }
 
 func (r *chunkReader) Read(p []byte) (int, error) {
@@ -1109,12 +1143,16 @@ func (r *chunkReader) Read(p []byte) (int, error) {
 	}
 	n = copy(p[:n], r.data)
 	r.data = r.data[n:]
+	if r.eofWithData && len(r.data) == 0 {
+		// the last bytes arrive together with io.EOF
+		return n, io.EOF
+	}
 	return n, nil
 }
 
 func init() {
 	core.Register(&c07prop{base{id: "C07", level: "exploration",
 		rule:        "two stream sources: (a) every parser type with boundary-biased small configurations (a third with BlockSize > 2*WindowSize so that sequences longer than the window occur) parses seeded inputs through Wrap with mixed flags; the block stream is first validated (expands to the input, offsets <= WindowSize) and then written to Decoder{W, B} for B in {0, W+1, W+2, 2W-1, 2W, 3W+1}; (b) arbitrary well-formed synthetic block streams with long matches and literal runs (sizes around BufferSize-WindowSize and beyond BufferSize); the decoder must accept without error and the flushed output must equal the input; non-trivial iff the stream has at least one block; distinct = distinct concrete case. A refusal is attributed to the recorded known finding only if the refused item is a well-formed sequence with LitLen+MatchLen > BufferSize-WindowSize and the error is the MatchLen error.",
-		assumptions: []string{"the premise (well-formed stream) is re-validated by the harness before the decoder sees it; streams from a defective parser are skipped, not blamed on the decoder"},
-		mandatory:   []string{"pairings_decoded_exactly", "sequences_longer_than_window_accepted", "valid_blocks", "decoder_writes_larger_than_free_space"}}})
+		assumptions: []string{"streams that the harness cannot expand at all are skipped (C01 decides them); a stream that is refused because the parser left the window, or that expands to other bytes than the input, counts: the property promises acceptance and the original bytes for everything the parsers emit"},
+		mandatory:   []string{"pairings_decoded_exactly", "sequences_longer_than_window_accepted", "valid_blocks", "decoder_writes_larger_than_free_space", "pairings_with_writer_faults"}}})
 }
